@@ -1514,6 +1514,9 @@ class Interp:
         if isinstance(v, Struct):
             if a in v.f:
                 return v.f[a]
+            if '__missing__' in v.f and not a.startswith('__'):
+                v.f[a] = v.f['__missing__'](a)       # a mock object: unknown attributes are fresh symbols
+                return v.f[a]
             if a == '__dict__':
                 return dict(v.f)
             if a == 'vmap':
@@ -2174,8 +2177,15 @@ class Interp:
             for k, d in zip(a.kwonlyargs, a.kw_defaults):
                 if d is not None:
                     env['v'][k.arg] = self.ev(d, {'v': {}, 'p': c.env}, c.mod)
+            named = set(params) | {k.arg for k in a.kwonlyargs}
+            extra = {}
             for k, v in kw.items():
-                env['v'][k] = v
+                if a.kwarg is not None and k not in named:
+                    extra[k] = v
+                else:
+                    env['v'][k] = v
+            if a.kwarg is not None:
+                env['v'][a.kwarg.arg] = extra
             if isinstance(node, ast.Lambda):
                 return self.ev(node.body, env, c.mod)
             # decorators: @jax.vmap on nested def handled at def time
